@@ -13,7 +13,9 @@ package c03
 import (
 	"encoding/json"
 	"fmt"
+	"github.com/go-openapi/strfmt"
 	"net/http"
+	"regexp"
 	"sort"
 	"strings"
 
@@ -174,11 +176,38 @@ func (s Sent) vals() []string {
 type Req struct {
 	Multipart bool   `json:"multipart,omitempty"` // formData parameters travel as multipart/form-data instead of urlencoded
 	Sent      []Sent `json:"sent"`
+	// UpperCT: the media type of the form's Content-Type header is spelled with capitals
+	// ("Application/X-WWW-Form-Urlencoded", "Multipart/Form-Data; boundary=..."): media types are case-insensitive.
+	UpperCT bool `json:"upper_ct,omitempty"`
 }
 
 type Case struct {
 	Decls []Decl `json:"decls"`
 	Reqs  []Req  `json:"reqs"`
+	// LateFormat: the application's own string format "x-color" is added to the format registry after the binder /
+	// the handler has been built (it is registered in either case before the first request arrives).
+	LateFormat bool `json:"late_format,omitempty"`
+}
+
+// hexColor is the Go type of the application-defined string format "x-color": '#' and six hex digits, kept in lower case.
+type hexColor string
+
+var reHexColor = regexp.MustCompile(`^#[0-9a-fA-F]{6}$`)
+
+func (c hexColor) String() string               { return string(c) }
+func (c hexColor) MarshalText() ([]byte, error) { return []byte(c), nil }
+func (c *hexColor) UnmarshalText(b []byte) error {
+	if !reHexColor.Match(b) {
+		return fmt.Errorf("%q is not a colour", b)
+	}
+	*c = hexColor(strings.ToLower(string(b)))
+	return nil
+}
+
+// addColorFormat registers "x-color" the way an application registers a format of its own.
+func addColorFormat(reg strfmt.Registry) {
+	var c hexColor
+	reg.Add("x-color", &c, func(s string) bool { return reHexColor.MatchString(s) })
 }
 
 func decoyName(name string) string {
